@@ -65,11 +65,34 @@ def run(plan):
             if o.kind != "ok":
                 res.fail(f"get_capabilities raised {o.exc_type}", repr(o.exc))
                 return
-        for hexbody in plan["bodies"]:
+        dev.fixed_msg_id = bool(plan.get("fixed_msg_id"))
+        bodies = list(plan["bodies"])
+        if plan.get("repeat"):
+            # the same report again after the user changed attributes locally without applying them
+            bodies = [b for hb in bodies for b in (hb, "scribble", hb)]
+        for hexbody in bodies:
+            if hexbody == "scribble":
+                ac.power_state = not ac.power_state
+                ac.target_temperature = 17.0 if ac.target_temperature != 17.0 else 29.5
+                ac.operational_mode = w.ns.AC.OperationalMode.HEAT if int(ac.operational_mode) != 4 else w.ns.AC.OperationalMode.COOL
+                ac.fan_speed = 77
+                ac.eco = not ac.eco
+                ac.turbo = not ac.turbo
+                ac.swing_mode = w.ns.AC.SwingMode.BOTH if int(ac.swing_mode) != 0xF else w.ns.AC.SwingMode.OFF
+                ac.target_humidity = 3
+                w.fire("local_changes_without_apply")
+                continue
             body = bytes.fromhex(hexbody)
             dev.raw_state = (body, with_msgid)
             parsed_len = len(body) + (1 if with_msgid else 0)
-            o = await s.do({"op": "refresh"})
+            rop = {"op": "refresh"}
+            if plan.get("stale_first") and s.version == 3:
+                stale = bytearray(body)
+                for i in (1, 2, 3, 7, 8, 9, 10, 11, 12, 13, 19):
+                    if i < len(stale):
+                        stale[i] ^= 0x5B
+                rop["net"] = [{"pre": ["unsol_raw:" + bytes(stale).hex()]}]
+            o = await s.do(rop)
             if o.kind != "ok":
                 res.fail(f"refresh raised {o.exc_type}", repr(o.exc))
                 return
@@ -112,7 +135,9 @@ def run(plan):
     except (SimDeadlock, SimStepLimit) as e:
         res.fail(f"liveness: {type(e).__name__}", str(e))
     res.take(w)
-    res.key = (plan.get("check_style"), with_msgid, bool(plan.get("non_custom_fan")), tuple(plan["bodies"]))
+    res.add_fired(dev.fired)
+    res.key = (plan.get("check_style"), with_msgid, bool(plan.get("non_custom_fan")), bool(plan.get("repeat")),
+               bool(plan.get("fixed_msg_id")), bool(plan.get("stale_first")), tuple(plan["bodies"]))
     res.nontrivial = True
     return res
 
@@ -180,6 +205,11 @@ def space(tier):
     def f_rand(j, rng):
         p = mk([rand_body(rng, rng.choice([24, 24, 22, 25, 30])) for _ in range(16)], j, rng)
         p["non_custom_fan"] = (j % 3 == 0)
+        p["repeat"] = (j % 4 == 1)
+        p["stale_first"] = (j % 4 == 3)        # odd j = V3 (the two frames share one segment)
+        p["fixed_msg_id"] = (j % 2 == 1)
+        if p["repeat"]:
+            p["bodies"] = p["bodies"][:6]
         return p
     sp.add("random", 2400 if tier == "quick" else 40_000, f_rand)
     return sp
